@@ -218,6 +218,36 @@ theorem truncated_is_error_chunked {bs : Bytes} {p : Package} (hp : parsePackage
     parseChunked (bs.take k) script = .err "eof" := by
   rw [read_chunk_indep _ _ hwf, truncated_is_error hp k hk]
 
+/-! ## the two file entry points together: `write_file` then `open` -/
+
+/-- **`Package::write_file(path)` followed by `Package::open(path)` is write + re-parse.** For EVERY package value, EVERY
+buffer capacity of the `BufWriter`, EVERY behaviour of the file while it is written (any response script) for which
+`write_file` returns `Ok`, and EVERY way the `BufReader<File>` then splits its reads (any well-formed chunk script):
+opening the file gives exactly what `Package::parse` gives on the bytes `Package::write` emits into a `Vec`
+(`Sign.writeParse`, the `w` step of C10's histories; C10's step `W` and C01's `openrt01` exercise this). -/
+theorem write_file_then_open (cap : Nat) (p : Package) (rs : List Resp) (hok : (writeFile cap (bufs p) rs).2 = .ok)
+    (script : List Chunk) (hwf : ScriptWF script) :
+    parseChunked (writeFile cap (bufs p) rs).1 script = parsePackage (writePackage p) := by
+  rw [read_chunk_indep _ _ hwf, (write_file_prefix_or_all cap p rs).2 hok]
+
+/-- … and for a value that was itself parsed (from ANY source kind: slice, `Cursor`, `open`), the file holds the
+canonical bytes of the input and opens to the same value. -/
+theorem open_write_file_open {bs : Bytes} {p : Package} (script0 : List Chunk) (h0 : ScriptWF script0)
+    (hp : parseChunked bs script0 = .ok p) (cap : Nat) (rs : List Resp) (hok : (writeFile cap (bufs p) rs).2 = .ok)
+    (script : List Chunk) (hwf : ScriptWF script) :
+    (writeFile cap (bufs p) rs).1 = writePackage p ∧ parseChunked (writeFile cap (bufs p) rs).1 script = .ok p := by
+  rw [read_chunk_indep _ _ h0] at hp
+  refine ⟨(write_file_prefix_or_all cap p rs).2 hok, ?_⟩
+  rw [write_file_then_open cap p rs hok script hwf]
+  simp only [parsePackage, Out.bind_eq_ok] at hp
+  obtain ⟨⟨m, r⟩, h1, hp⟩ := hp
+  simp only [Out.pure_eq, Out.ok.injEq] at hp
+  subst hp
+  obtain ⟨res1, pad, res2, l1, lp, l2, rfl, wf⟩ := parseMetadata_ok h1
+  simp only [writePackage, parsePackage, writeMetadata_eq]
+  rw [parseMetadata_write wf rfl (by simp) rfl]
+  rfl
+
 /-! ## non-vacuity -/
 
 /-- the accepted sample of C01 (non-zero reserved bytes and padding, BIN / STRING / INT32 entries, 2 payload bytes; 194 bytes) -/
@@ -265,5 +295,11 @@ example : parseChunked sample [.size 0] = .err "eof" ∧ (parsePackage sample).i
 example : (parsePackage sample).map (fun p => (writeMetadata p.md).length) = .ok 192 := by decide +kernel
 example : parsePackage (sample.take 191) = .err "eof" := by decide +kernel
 example : (parsePackage (sample.take 192)).isOk = true := by decide +kernel
+-- write_file through a 16-byte BufWriter into a file that takes 5 bytes per call, then opened through 7-byte reads: the value again
+example : (parsePackage sample).map (fun p =>
+    ((writeFile 16 (bufs p) (List.replicate 100 (.ok 5))).2,
+     parseChunked (writeFile 16 (bufs p) (List.replicate 100 (.ok 5))).1 (List.replicate 60 (.size 7)) == .ok p)) = .ok (.ok, true) := by
+  decide +kernel
+example : ScriptWF (List.replicate 60 (Chunk.size 7)) := by decide
 
 end RpmVerif.C14
